@@ -166,6 +166,10 @@ def match(p, n, b):
     return True
 
 
+# discovery aid (tools/guard_audit.py): statements matched by templates
+AUDIT = None
+
+
 def find(pattern, root, bindings=None):
     """All (node, binding) in `root` matching the template source."""
     p = parse(pattern) if isinstance(pattern, str) else pattern
@@ -178,6 +182,9 @@ def find(pattern, root, bindings=None):
         b = dict(bindings or {})
         if match(p, n, b):
             out.append((n, b))
+            if AUDIT is not None and isinstance(n, ast.stmt):
+                AUDIT.append((pattern if isinstance(pattern, str) else '?',
+                              n))
     return out
 
 
